@@ -19,7 +19,7 @@ CFG = {
             "their own (1/8 of the placements) or anywhere on the screen (1/24), every Resize reports the pixel size of the real resizeImage result and the "
             "real cellPixelSize. Round 3: kitty draws into tight windows (0..5 x 0..3 cells; about 1 in 11 draws is refused as too large), 400 rescaled block images of "
             "kinds half/full (image.NRGBA source) and halfp/fullp (image.RGBA source), half of them translucent, up to 9x12 px into boxes down to 1x1, compared cell by cell with the scaler model; unscaled "
-            "premultiplied 1x2 images at every alpha level. Round 4: 600 (thorough 6000) block images with real *image.Gray and *image.Paletted (color.NRGBA palette, half of them with translucent entries) "
+            "premultiplied 1x2 images at every alpha level. Round 4: 1000 (thorough 10000) block images with real *image.Gray, *image.Paletted (color.NRGBA palette, half of them with translucent entries) and *image.YCbCr (4:4:4 and 4:2:0, incl. values that clamp) "
             "sources, 2/3 rescaled; every rendered frame reports ALL graphics commands in the order written (Q=: delete / place / complete PNG transmission with its pixel size / sixel). A case = one #case block; distinct by its op list; "
             "non-trivial = not a bare state snapshot",
     "technique": "Lean 4 proof over executable models of image.go / vaxis.go render / window.go Clear whose arm structure, guards, loops and statement order are regenerated from the source and INTERPRETED "
@@ -36,7 +36,8 @@ CFG = {
         "same order as the Go code) and asserts Sound on every value it sees (DESIGN 3.5)",
         "draw.NearestNeighbor.Scale is modelled (Model/Scaler.lean: index formula, the NRGBA/RGBA fast paths, the generic path scale_RGBA_Image_* and the Gray fast path of golang.org/x/image v0.9.0 draw/impl.go, hand-transcribed from the "
         "module cache - not regenerated by the extractor) and tied by the block streams (every rescaled image compared cell by cell); other source types are covered through the hypothesis SameAs (seen through At().RGBA() the source is pixel for pixel an "
-        "NRGBA image: proved for *image.Gray, checked at run time for *image.Gray and *image.Paletted); *image.YCbCr and 16-bit types, the Copy shortcut "
+        "NRGBA image: proved for *image.Gray, checked at run time for *image.Gray and *image.Paletted) or through the any-source model Scaler.resizeImgG (what At().RGBA() returns per pixel; proved to contain the fast-path model; *image.YCbCr via the "
+        "transcribed color.YCbCr.RGBA() = Spec.ycbcrRGBA and the inlined conversion of the YCbCr fast paths, 4:4:4 and 4:2:0 checked at run time); 16-bit types and the other subsampling ratios are not exercised; the Copy shortcut "
         "for equal sizes (proved unreachable from resizeImage under Sound), the PNG / base64 / sixel encoders and octreequant are not modelled",
         "Go's image/color conversions NRGBA.RGBA() / RGBA.RGBA() / Gray.RGBA() are transcribed in Spec.Images (nrgbaRGBA, rgbaRGBA, grayRGBA) and "
         "validated by the nrgba / rgba / half / full streams; since the F320 repair the block renderers do not call At() outside the bounds (the former assumption 'outside = zero colour' is gone)",
@@ -66,19 +67,20 @@ CFG = {
                   "the terminal's placement table (commands applied in emission order) is exactly the table of the last frame; order_matters (the loops swapped: false); placement_id_injective over the regenerated id expression; data_is_latest / written_with_latest_data - all histories, "
                   "no hypothesis: a written placement finds the data of the image's last successful Resize on the terminal (re-upload after a second Resize); half_pipeline_translucent / full_pipeline_translucent - ONE statement per renderer for the colours of every cell of every "
                   "stored NRGBA image, scaled or not, translucent included (decision by the source alphas against 50 AND colours standing for the source pixels under the cell within 255/a + 1 levels); generic_path_eq_fast_path (sources of other types under the stated hypothesis SameAs, "
-                  "gray_same_as_nrgba proved); F320 (HalfBlockImage drew what At() answers outside the bounds - black for image.Gray, palette[0] for image.Paletted - under the last row of an odd-height image) found and repaired, half_block_bottom_shape.",
+                  "gray_same_as_nrgba proved); half_pipeline_any_source / full_pipeline_any_source / half_pipeline_any_opaque_source - the renderers on a source of ANY concrete type given by its At().RGBA() (JPEG -> *image.YCbCr, Gray, Paletted, 16-bit; scaled or not): the property's table / mean on the "
+                  "two seen source pixels under each cell, exact 8-bit colours for opaque sources; ycbcr_fast_path, generic_model_contains_fast_model; terminal_placements_inside - over all application histories every placement in the TERMINAL's table was drawn at the origin of a window containing all of it; F320 (HalfBlockImage drew what At() answers outside the bounds - black for image.Gray, palette[0] for image.Paletted - under the last row of an odd-height image) found and repaired, half_block_bottom_shape.",
     "level_note": "Validated by correspondence only: that the model is the code (VerifResizeDims / VerifToRGB / VerifAverageColor / "
                   "real block images / real kitty and sixel placements on a fake console incl. degenerate pixel reports, signed boxes, windows of their "
                   "own; 0 mismatches), the float hypothesis on the values seen. Oracles on the implementation independent of the model: fit / no-upscale / "
                   "aspect, cell geometry, CellSize = ceil(px/cell) exactly, negative box => empty, glyph table and colours, mustWrite / mustDelete, kitty "
                   "placement inside its window (F120), rescaled opaque images show colours of source pixels under each cell (independent of the index formula), last odd row of a full-block image "
                   "in its own colour (F220); round 4: the order-sensitive terminal model run on the implementation's ORDERED command sequence - every a=p finds the data of the image's last Resize, after every frame the terminal's table = the (image, origin) pairs the application drew "
-                  "(not judged from a frame with a key clash on: keyfun_needed); the hypothesis SameAs for *image.Gray / *image.Paletted sources (600 images per quick run through the real scaler and renderers). That the scaler model is x/image's code (hand-transcribed, tied by about 1 600 rescaled images per quick run). Modelled, not verified: the strict terminal Term.applyDrop (only a witness), *image.YCbCr / 16-bit sources (not modelled), "
+                  "(not judged from a frame with a key clash on: keyfun_needed); the hypothesis SameAs for *image.Gray / *image.Paletted sources and the transcribed YCbCr conversion / subsampling (1000 images per quick run through the real scaler and renderers). That the scaler model is x/image's code (hand-transcribed, tied by about 1 600 rescaled images per quick run). Modelled, not verified: the strict terminal Term.applyDrop (only a witness), 16-bit source types and 4:2:2 / 4:4:0 YCbCr (inside the any-source theorems, not exercised), "
                   "nothing about the content of the PNG / sixel data beyond the PNG's pixel size.",
     "assumptions": ["image dimensions >= 1 (empty images are out of scope); box dimensions are any Int (round 2)",
                     "col,row of a placement within 0..65535 (the kitty placement id packs col<<16|row)",
                     "fit_no_upscale_aspect_std: every dimension of image and box below 2^26 and the standard model of floating-point arithmetic (StdModel); the other fit theorems: Sound",
-                    "the pipeline theorems about pixels: source of concrete type *image.NRGBA or *image.RGBA (the scaler's fast paths), or any type meeting SameAs (generic_path_eq_fast_path); *_opaque: every stored alpha byte 0xff; *_translucent: *image.NRGBA",
+                    "the pipeline theorems about pixels: source of concrete type *image.NRGBA or *image.RGBA (the scaler's fast paths), or any type meeting SameAs (generic_path_eq_fast_path); *_any_source: any type, given by what At(x,y).RGBA() returns, Bounds().Min = (0,0); *_opaque: every stored alpha byte 0xff; *_translucent: *image.NRGBA",
                     "terminal_table_*: no frame holds one image twice at one origin in two sizes (FramesKeyFun; needed: keyfun_needed); the terminal keeps an image's placements when its data is retransmitted"],
     "timeout": 1800,
 }
